@@ -9,8 +9,6 @@ def plan(tier, seed, kf_ids):
     q = tier == "quick"
     jobs = []
     lay = [("U", 4), ("I", 4), ("U", 0), ("I", 7), ("U", 8)] if q else [(s, f) for s in ("U", "I") for f in range(9)]
-    if q:
-        lay.append((rnd.choice(["U", "I"]), rnd.choice([1, 2, 3, 5, 6])))
     for (s, f) in lay:
         t, i, al, tg = c.ty(s, 8, f), c.inner(s, 8), c.alias(s, 8, f), c.tag(s, 8, f)
         kinds = [("display", "c09_display!(%s, %s, %s, %d);", "{}: printed digits are the value correctly rounded (nearest, ties to even) at "
@@ -23,13 +21,10 @@ def plan(tier, seed, kf_ids):
         for wh, nm in enumerate(("plus", "right", "fill_left", "zero", "alt_hex", "centre_plus")):
             kinds.append(("flags_" + nm, "c09_flags!(%%s, %%s, %%s, %%d, %d);" % wh, "format flags '%s' with width <= 12 only add padding, sign "
                           "and prefix around the flag-free digits" % nm))
+        QUICK = {("display", "U", 4), ("display", "I", 7), ("display", "U", 8), ("prec", "U", 0), ("prec", "I", 4), ("roundtrip", "U", 8),
+                 ("radix_hex", "U", 4), ("radix_bin", "I", 4), ("flags_alt_hex", "I", 4)}
         for kind, tmpl, desc in kinds:
-            main = (s, f) in (("U", 4), ("I", 4))
-            if q and kind.startswith("radix") and not (main and kind in ("radix_hex", "radix_bin")) and not ((s, f) == ("I", 7) and kind == "radix_oct"):
-                continue
-            if q and kind.startswith("flags") and not (main and kind in ("flags_zero", "flags_centre_plus", "flags_alt_hex")):
-                continue
-            if q and kind == "roundtrip" and (s, f) not in (("U", 4), ("I", 4), ("U", 8), ("I", 7)):
+            if q and (kind, s, f) not in QUICK:
                 continue
             name = "c09_%s_%s" % (kind, tg)
             jobs.append(Job(name, tmpl % (name, t, i, f), "for every value of %s: %s" % (al, desc), timeout=3000, inst=al,
@@ -39,12 +34,13 @@ def plan(tier, seed, kf_ids):
         jobs.append(Job("kfw_" + k, "", "witness of known finding %s (concrete operands)" % k, timeout=900, kf=k,
                         inst="witness", bounds="concrete operands"))
     return {
+        "workers": 10,
         "feature": "c09",
         "jobs": jobs,
         "functions": ["display.rs: fmt_dec, fmt_radix2, FmtHelper::{write_int,write_frac,write_int_dec,write_frac_dec}, "
                       "Buffer::{round_and_trim,encode_digits,pad_and_print}; Display/Debug/Binary/Octal/LowerHex/UpperHex impls",
                       "from_str.rs (round trip through the real parser)"],
-        "bounds": "8-bit types (quick: 6 layouts, thorough: all 18): every value; precision 0..=8; widths 0..=12 with six "
+        "bounds": "8-bit types (quick: nine (kind, layout) obligations of 6-14 min each, thorough: every kind on all 18 layouts): every value; precision 0..=8; widths 0..=12 with six "
                   "flag combinations; output buffer 26 bytes; loops unwound 28",
         "outside": ["16/32/64/128-bit types (the fmt machinery on wider words does not finish in the time available)",
                     "precision > 8, width > 12, other fill/flag combinations"],
